@@ -83,6 +83,7 @@ func runC04(c *Ctx) {
 
 	checkClientValues(c, "C04.R12")
 	checkByteCopyLoops(c, "C04.R13")
+	checkTargetHeuristic(c)
 	importRules(c, runC03, map[string]string{"C03.R9": "C04.R11"}, map[string]string{"C04.R11": "the constants a mask is compiled with mean what the syntax documents, so the pattern conjunct holds for every URL the mask describes (shared with C03.R9)"})
 	importRules(c, runC17, map[string]string{"C17.R1": "C04.R9", "C17.R2": "C04.R9", "C17.R6": "C04.R9"},
 		map[string]string{"C04.R9": "the request fields $third-party and $domain read are derived as documented: third-party flag, registrable domains, eTLD+1 table (shared with C17.R1/R2/R6)"})
@@ -1139,4 +1140,123 @@ func newHelpersOf(p *Prog, fn *ssa.Function) []*ssa.Function {
 		}
 	}
 	return out
+}
+
+// checkTargetHeuristic (C04.R14): which patterns are matched against the URL even for a hostname
+// request.  The documented heuristic: patterns that begin with "||", "http://", "https://" or "://",
+// and patterns of the form "/name." whose inside consists of letters, digits, dots and hyphens only.
+// The function is found by what it does (the one that tests the "://" prefix), its prefix tests are
+// compared as a set, and the stay-condition of its scan over the pattern is evaluated on all 256 bytes.
+func checkTargetHeuristic(c *Ctx) {
+	c.Rule("C04.R14", "TBL", "URL-only patterns: the four documented prefixes, and '/name.' with name over [A-Za-z0-9.-]", 2)
+	var H *ssa.Function
+	for _, fn := range c.P.AllLibFuncs() {
+		if fn.Pkg == nil || !strings.HasSuffix(fn.Pkg.Pkg.Path(), "/rules") {
+			continue
+		}
+		eachInstr(fn, func(_ *ssa.BasicBlock, in ssa.Instruction) {
+			if cl, ok := in.(*ssa.Call); ok && len(cl.Call.Args) == 2 {
+				if cal := cl.Call.StaticCallee(); cal != nil && calleeName(cal) == "strings.HasPrefix" {
+					if k, isK := cl.Call.Args[1].(*ssa.Const); isK && k.Value != nil && k.Value.ExactString() == "\"://\"" {
+						H = fn
+					}
+				}
+			}
+		})
+	}
+	if H == nil {
+		c.Fail("C04.R14", "anchor:URL-only pattern test", 0, "unresolved anchor: no function of package rules tests the prefix \"://\"")
+		return
+	}
+	// judge it where it is used: the function of the vocabulary that (transitively, through helpers) holds it
+	root := H
+	if c.P.IsNewHelper(H) {
+		for _, fn := range c.P.AllLibFuncs() {
+			if !c.P.IsNewHelper(fn) && helperGroup(c.P, fn)[H] {
+				root = fn
+			}
+		}
+	}
+	c.Fn(FuncName(root))
+	g := NewGate(c.P)
+	g.Inline = inlineOnly()
+	s := g.Eval(root)
+	u := g.U
+	// the prefixes
+	got := map[string]bool{}
+	var S *E
+	for _, e := range u.tab {
+		if e.Op == "call" && e.Aux == "strings.HasPrefix" && len(e.Args) == 2 {
+			if k, ok := e.Args[1].StrVal(); ok {
+				if k == "://" {
+					S = e.Args[0]
+				}
+			}
+		}
+	}
+	for _, e := range u.tab {
+		if e.Op == "call" && e.Aux == "strings.HasPrefix" && len(e.Args) == 2 && e.Args[0] == S {
+			if k, ok := e.Args[1].StrVal(); ok {
+				got[k] = true
+			}
+		}
+	}
+	want := []string{"||", "http://", "https://", "://"}
+	bad := ""
+	for _, w := range want {
+		if !got[w] {
+			bad = fmt.Sprintf("the prefix %q is not tested: such patterns are matched against the bare hostname of a DNS request and never match", w)
+		}
+	}
+	if len(got) != len(want) && bad == "" {
+		bad = fmt.Sprintf("prefixes tested: %v, documented: %v", sortedKeys(got), want)
+	}
+	c.Check(bad == "", "C04.R14", shortFn(root)+": prefixes of URL-only patterns", root.Pos(), fmt.Sprintf("%v", want), bad)
+	// the scan over the inside of "/name."
+	class := func(b int64) bool {
+		return (b >= 'a' && b <= 'z') || (b >= 'A' && b <= 'Z') || (b >= '0' && b <= '9') || b == '.' || b == '-'
+	}
+	bad = "UNDECIDED: no byte-by-byte scan over the pattern found (the character class of '/name.' patterns is not visible)"
+	for _, li := range loopInsts(g, s) {
+		ct := countedLoop(u, li.Act, li.L)
+		if ct == nil || !ct.StepOK || ct.Step != 1 {
+			continue
+		}
+		// the byte looked at: index(X, idx) for a string X
+		var ch *E
+		for _, e := range u.tab {
+			if e.Op == "index" && len(e.Args) == 2 && e.Args[1] == ct.Idx && e.Args[0].Typ != nil && isStringT(e.Args[0].Typ) {
+				ch = e
+			}
+		}
+		if ch == nil {
+			continue
+		}
+		stay := False
+		for _, lt := range li.L.Latches {
+			stay = u.bdd.Or(stay, li.Act.RC[lt])
+		}
+		bad = ""
+		for b := int64(0); b < 256 && bad == ""; b++ {
+			sub := map[string]*E{ch.key: u.ConstVal(constantInt(b), types.Typ[types.Uint8])}
+			for _, at := range u.AtomsOf(ct.Cont) {
+				sub[at.key] = u.Bool(True)
+			}
+			r := u.SubstBool(stay, sub)
+			// what is left are the conditions under which the scan is reached at all
+			for _, at := range u.AtomsOf(r) {
+				if !u.Mentions(at, func(x *E) bool { return x == ch }) {
+					r = u.bdd.Exists(r, u.atomIx[at.key])
+				}
+			}
+			c.Paths++
+			if r != True && r != False {
+				bad = fmt.Sprintf("UNDECIDED: the stay condition of the scan does not fold for byte %d", b)
+			} else if (r == True) != class(b) {
+				bad = fmt.Sprintf("for the byte %q the scan over the inside of a '/name.' pattern %s, the documented class is [A-Za-z0-9.-]: the pattern is then matched against the wrong target (the bare hostname instead of the URL, or the other way round) and a DNS request gets a different answer", rune(b), map[bool]string{true: "goes on", false: "stops"}[r == True])
+			}
+		}
+		break
+	}
+	c.Check(bad == "", "C04.R14", shortFn(root)+": character class of '/name.' patterns", root.Pos(), "stay-condition of the scan evaluated on all 256 byte values", bad)
 }
